@@ -170,7 +170,22 @@ pub fn dispatch(ctx: &mut Ctx, verb: &str, a: &[String]) -> Option<Out> {
             let part: usize = a[2].parse().unwrap_or(0);
             let m = mdl!(ctx, &a[0]);
             if lod >= m.lods.len() || part >= m.lods[lod].parts.len() { return Some(Out::usage("lod/part")); }
+            // the SubMesh values handed in: by default clones of the part's own list; `rev` = the own list reversed, `tpl=l,p` = the
+            // list of another part (a caller can only obtain SubMesh values by cloning parsed ones, from any part, in any order);
+            // the i-th value supplies the range of the part's i-th sub-mesh
             let mut subs = m.lods[lod].parts[part].submeshes.clone();
+            if let Some(t) = a.get(6) {
+                if t == "rev" {
+                    subs.reverse();
+                } else if let Some(x) = t.strip_prefix("tpl=") {
+                    let mut it = x.split(',');
+                    let tl: usize = it.next().and_then(|v| v.parse().ok()).unwrap_or(0);
+                    let tp: usize = it.next().and_then(|v| v.parse().ok()).unwrap_or(0);
+                    if tl < m.lods.len() && tp < m.lods[tl].parts.len() {
+                        subs = m.lods[tl].parts[tp].submeshes.clone();
+                    }
+                }
+            }
             if a[5] != "-" {
                 for (i, pair) in a[5].split(';').enumerate() {
                     let mut it = pair.split(',');
